@@ -36,7 +36,7 @@ package auth
 //  C15 [fee-checked]    the declared fee covers the fee required for the message type
 //@ func ValidateTransaction
 //@   props C15,C14,C16,C12
-//@   modifies acctCV, bigv
+//@   modifies acctCV, acctOK, bigv
 //@   ensures [not-duplicate] sdkErr == nil ==> txIndexer != nil && !idxHas(txIndexer, txHashOf(old(bytes(txBz))))
 //@   ensures [signed] sdkErr == nil && !simulate ==> signer != nil && sigVerify(signer, signBytesOf(ctxChainID(ctx), stdTx), old(bytes(stdTx.Signature.Signature)))
 //@   ensures [authorised] sdkErr == nil && ctxHeight(ctx) != 30334 ==> signer != nil && admissible(ctx, stdTx, pkAddr(signer))
@@ -51,7 +51,7 @@ package auth
 // ---- C15: the fee is moved exactly once, from the authenticated signer, in full -----------------
 //@ func GetSignerAcc
 //@   props C15
-//@   modifies acctCV
+//@   modifies acctCV, acctOK
 //@   ensures result1 == nil ==> result0 != nil && accAddr(result0) == bytes(addr) && acctCV[result0] == bal[bytes(addr)] && balHas[bytes(addr)]
 //@   ensures result1 != nil ==> !balHas[bytes(addr)]
 
@@ -61,7 +61,7 @@ package auth
 //@ pure payerOf(c Iface, tx x/auth/types.StdTx, s Iface) Bytes = ite((global(codec.UpgradeFeatureMap)["NCUST"] != 0 && ctxHeight(c) >= global(codec.UpgradeFeatureMap)["NCUST"]) || global(codec.TestMode) <= 0 - 3, pkAddr(s), msgSigner(tx.Msg, 0))
 //@ func DeductFees
 //@   props C15,C17,C12
-//@   modifies acctCV, bal, balHas
+//@   modifies acctCV, acctOK, bal, balHas, balOK
 //@   ensures [moves-declared-fee] result == nil ==> bal == moved(modBal(old(bal), old(balHas), "fee_collector"), old(balHas)[modAddr("fee_collector") := true], payerOf(ctx, tx, signer), modAddr("fee_collector"), cv(tx.Fee))
 //@   ensures [payer-covered] result == nil ==> !cvNeg(cvSub(curBal(old(bal), old(balHas), payerOf(ctx, tx, signer)), cv(tx.Fee)))
 //@   ensures [uncovered-moves-nothing] old(balHas[payerOf(ctx, tx, signer)]) && cvNeg(cvSub(old(bal[payerOf(ctx, tx, signer)]), cv(tx.Fee))) ==> result != nil && bal == old(bal) && balHas == old(balHas)
@@ -72,7 +72,7 @@ package auth
 // declared fee; a transaction rejected before or during authentication changes no balance
 //@ func NewAnteHandler$1
 //@   props C15,C14,C12
-//@   modifies acctCV, bigv, bal, balHas
+//@   modifies acctCV, acctOK, bigv, bal, balHas, balOK
 //@   ensures [accepted-means-authenticated-and-charged] !abort ==> isdyn(tx, types.StdTx) && signer != nil && bal == moved(modBal(old(bal), old(balHas), "fee_collector"), old(balHas)[modAddr("fee_collector") := true], payerOf(ctx, dyn(tx, types.StdTx), signer), modAddr("fee_collector"), cv(dyn(tx, types.StdTx).Fee))
 //@   ensures [accepted-means-signed] !abort && !simulate ==> sigVerify(signer, signBytesOf(ctxChainID(ctx), dyn(tx, types.StdTx)), old(bytes(dyn(tx, types.StdTx).Signature.Signature)))
 //@   ensures [auth-failure-moves-nothing] abort && signer == nil ==> bal == old(bal) && balHas == old(balHas)
